@@ -6,6 +6,7 @@ mod breaker;
 mod node;
 mod reads;
 mod replicator;
+mod vcluster;
 mod watermark;
 
 fn main() {
@@ -18,6 +19,7 @@ fn main() {
     match args[1].as_str() {
         "reads" => rt.block_on(reads::reads_cmd(&mut rep, &args[2], args[3].parse().unwrap())),
         "replicator" => rt.block_on(replicator::replicator_cmd(&mut rep, &args[2])),
+        "vcluster" => rt.block_on(vcluster::vcluster_cmd(&mut rep, &args[2])),
         "watermark" => rt.block_on(watermark::watermark_cmd(&mut rep, &args[2])),
         "breaker" => breaker::breaker_cmd(&mut rep, &args[2], &args[3], args.get(4).map(|s| s.as_str()).unwrap_or("conform")),
         other => panic!("unknown subcommand {other}"),
